@@ -75,6 +75,7 @@ func fromJSON(j msgJSON) (proto.Message, error) {
 	if err := proto.Unmarshal(b, m); err != nil {
 		return nil, err
 	}
+	concretize(m.ProtoReflect())
 	return m, nil
 }
 
@@ -121,6 +122,7 @@ func main() {
 	phase("parked", func() { runParked(f, res, drv, mons) })
 	phase("free", func() { runFree(f, res, drv, mons) })
 	phase("lossy", func() { runLossy(f, res, mons) })
+	phase("traits", func() { runTraits(f, res, mons) })
 	delete(res.Extra, "ieee_tie")
 	if n := patience.note(); n != "" {
 		res.Notes = append(res.Notes, n)
@@ -195,6 +197,12 @@ func replay(f lib.Flags) int {
 			lib.Fatal(err)
 		}
 		out = b2s(c.monitor(mons))
+	case "tstream":
+		var c tcase
+		if err := reJSON(in, &c); err != nil {
+			lib.Fatal(err)
+		}
+		out = c.run(mons)
 	case "cpark":
 		var c pcaseJSON
 		if err := reJSON(in, &c); err != nil {
